@@ -2,7 +2,7 @@
   Driver handler: `mw.run`, `mw.spec`, `mw.old` — middleware chains (C19).
 
   Request line:
-      mw.run <kind> <chain> <core> [<m0>,<c0>]
+      mw.run <kind> <chain> <core> [<m0>,<c0>[,<op0>]]
 
     kind   := client | srvmsg | srvitem
     chain  := "-"                         (no middleware)
@@ -11,7 +11,9 @@
             | act ("." act)*
     act    := "c"                         resp, err = next(ctx, msg)
             | "f"                         if failed(resp, err) { resp, err = next(ctx, msg) }
-            | "m" tr                      msg = tr(msg)
+            | "m" tr                      msg = new message with token tr(token), same operation
+            | "o" nat                     msg = new message, same token, requesting operation nat
+                                          (server: 1 -> handler 1, 2 -> handler 2, others: no handler)
             | "x" tr                      ctx = WithValue(ctx, tr(value))
             | "r" ret                     return ret
             | "rf" ret                    if failed(resp, err) { return ret }
@@ -21,26 +23,32 @@
     ret    := "l"                         resp, err            (the latest result of next)
             | "e"                         nil, err
             | "s"                         resp, nil
-            | "F" opt "," opt             fixed (resp, err);  opt := nat | "n" (nil)
+            | "F" ropt "," opt            fixed (resp, err);  opt := nat | "n" (nil)
+                                          ropt := "n" | nat | nat "@" nat   (token @ echoed operation, default 1)
     core   := outs ":" out ":" rej
     outs   := "-" | out ("," out)*        outcome of the 1st, 2nd, … invocation of the handler
     out    := "o" nat | "e" nat           ok value / error code; the middle field is the default
     rej    := "-" | nat ("," nat)*        messages the handler always refuses (error code 9)
-    m0,c0  := initial message and context tokens (default 1,1)
+    m0,c0,op0 := initial message token, context token, operation of the request (default 1,1,1)
 
   Answer line:
       ok <resp>/<err> <events>
-    resp, err := nat | "n";  events := "-" | event ("," event)*
+    resp := "n" | tok "@" op (response token and the operation it echoes);  err := nat | "n"
+    m    := tok "@" op       (message token and the operation it requests)
+    events := "-" | event ("," event)*
     event  := "E" id ":" m ":" c          stage id entered with message m, context c
             | "C" id ":" m ":" c          stage id calls next with m, c
             | "B" id ":" resp "/" err     that call returned
             | "X" id ":" resp "/" err     stage id returns
-            | "K" n ":" m ":" c ":" h ":" out     n-th handler invocation (h: header its context reports)
+            | "K" n ":" hd ":" m ":" c ":" h ":" out
+                                          n-th handler invocation: handler hd ran (0 = client transport),
+                                          m = token and payload type it was given, h = header its context reports
 
   `mw.run` answers with `runImpl` (the model of the current code), `mw.spec` with `runSpec`,
   `mw.old` with `runOld` (the pre-fix code; used to demonstrate detection on an old worktree).
   Examples:  retry×3 then tag:  `mw.run client c.f.f/mt2.c e1,e2:o5:- 1,1`
              short-circuit:      `mw.run srvitem c/rFn,5/c -:o5:-`
+             operation rewrite:  `mw.run srvitem mt1.o2.c -:o5:- 7,9,3`   (unrouted 3 rewritten to 2)
 -/
 import Driver.Common
 import KmipModel.Model.Middleware
@@ -59,6 +67,16 @@ private def parseTr : List Char → Option Tr
 private def parseOpt (s : String) : Option (Option Nat) :=
   if s = "n" then some none else s.toNat?.map some
 
+private def parseROpt (s : String) : Option (Option Resp) :=
+  if s = "n" then some none else
+  match s.splitOn "@" with
+  | [t] => t.toNat?.map fun v => some ⟨v, 1⟩
+  | [t, o] => do
+    let v ← t.toNat?
+    let op ← o.toNat?
+    pure (some ⟨v, op⟩)
+  | _ => none
+
 private def parseRet : List Char → Option Ret
   | ['l'] => some .last
   | ['e'] => some .errOnly
@@ -66,7 +84,7 @@ private def parseRet : List Char → Option Ret
   | 'F' :: cs =>
     match (String.ofList cs).splitOn "," with
     | [a, b] => do
-      let ra ← parseOpt a
+      let ra ← parseROpt a
       let rb ← parseOpt b
       pure (.fixed ⟨ra, rb⟩)
     | _ => none
@@ -77,6 +95,7 @@ private def parseAct (s : String) : Option Act :=
   | ['c'] => some .call
   | ['f'] => some .callIfFail
   | 'm' :: cs => (parseTr cs).map .setMsg
+  | 'o' :: cs => (natOfChars cs).map .setOp
   | 'x' :: cs => (parseTr cs).map .setCtx
   | 'r' :: 'f' :: cs => (parseRet cs).map .retIfFail
   | 'r' :: 'o' :: cs => (parseRet cs).map .retIfOk
@@ -122,42 +141,47 @@ private def rOpt : Option Nat → String
   | none => "n"
   | some v => toString v
 
-def renderR (r : R) : String := rOpt r.resp ++ "/" ++ rOpt r.err
+def renderMsg (m : Msg) : String := toString m.tok ++ "@" ++ toString m.op
+
+def renderResp : Option Resp → String
+  | none => "n"
+  | some t => toString t.tok ++ "@" ++ toString t.op
+
+def renderR (r : R) : String := renderResp r.resp ++ "/" ++ rOpt r.err
 
 def renderOut : Out → String
   | .ok v => "o" ++ toString v
   | .err e => "e" ++ toString e
 
 def renderEvent : Event → String
-  | .enter id m c => "E" ++ toString id ++ ":" ++ toString m ++ ":" ++ toString c
-  | .call id m c => "C" ++ toString id ++ ":" ++ toString m ++ ":" ++ toString c
+  | .enter id m c => "E" ++ toString id ++ ":" ++ renderMsg m ++ ":" ++ toString c
+  | .call id m c => "C" ++ toString id ++ ":" ++ renderMsg m ++ ":" ++ toString c
   | .back id r => "B" ++ toString id ++ ":" ++ renderR r
   | .exit id r => "X" ++ toString id ++ ":" ++ renderR r
-  | .core n m c h o =>
-    "K" ++ toString n ++ ":" ++ toString m ++ ":" ++ toString c ++ ":" ++ toString h ++ ":" ++ renderOut o
+  | .core n hd m c h o =>
+    "K" ++ toString n ++ ":" ++ toString hd ++ ":" ++ renderMsg m ++ ":" ++ toString c ++ ":" ++
+      toString h ++ ":" ++ renderOut o
 
 def renderRun (x : Run) : String :=
   "ok " ++ renderR x.1 ++ " " ++
     (if x.2.isEmpty then "-" else ",".intercalate (x.2.map renderEvent))
 
-private def runWith (f : Kind → List Stage → Core → Nat → Nat → Run) (arg : String) : String :=
+private def runWith (f : Kind → List Stage → Core → Msg → Nat → Run) (arg : String) : String :=
   let parts := arg.splitOn " "
-  let go (k ch co : String) (m0 c0 : Nat) : String :=
+  let go (k ch co : String) (m0 c0 op0 : Nat) : String :=
     match parseKind k, parseChain ch, parseCore co with
-    | some k, some chain, some core => renderRun (f k chain core m0 c0)
+    | some k, some chain, some core => renderRun (f k chain core ⟨m0, op0⟩ c0)
     | _, _, _ => "bad-op"
   match parts with
-  | [k, ch, co] => go k ch co 1 1
+  | [k, ch, co] => go k ch co 1 1 1
   | [k, ch, co, ini] =>
-    match ini.splitOn "," with
-    | [a, b] =>
-      match a.toNat?, b.toNat? with
-      | some m0, some c0 => go k ch co m0 c0
-      | _, _ => "bad-op"
+    match (ini.splitOn ",").mapM (·.toNat?) with
+    | some [m0, c0] => go k ch co m0 c0 1
+    | some [m0, c0, op0] => go k ch co m0 c0 op0
     | _ => "bad-op"
   | _ => "bad-op"
 
-def run (f : Kind → List Stage → Core → Nat → Nat → Run) (arg : String) : String := runWith f arg
+def run (f : Kind → List Stage → Core → Msg → Nat → Run) (arg : String) : String := runWith f arg
 
 end Driver.Mw
 
